@@ -17,6 +17,7 @@ const (
 	TrueTypeMacRoman                 // /TrueType, /MacRomanEncoding, no font program
 	Type0Identity                    // /Type0 Identity-H, 2-byte codes, ToUnicode CMap
 	Type1Standard                    // /Type1 Times-Roman, no /Encoding (StandardEncoding); ASCII only
+	Type1Widths                      // /Type1 Helvetica, /WinAnsiEncoding, with its own /FirstChar /LastChar /Widths (all 950)
 )
 
 // Line is one shown string (one Tj at its own position).
@@ -45,25 +46,26 @@ type Doc struct {
 
 // Layout is the physical-layout vector. The zero value of every field is the plain default.
 type Layout struct {
-	XRef      string // "table" (default) | "stream"
-	ObjStm    string // "none" (default) | "all" | "alt"          (needs XRef=stream)
-	Filter    string // "none" | "Fl" | "AHx" | "A85Fl" | "FlPNG"  (content and ToUnicode streams)
-	Length    string // "direct" | "before" | "after"             (indirect /Length object placed before/after its stream)
-	Split     int    // number of content streams per page: 0/1, 2, 3
-	SplitWS   string // "left" (default): whitespace stays at the end of the left part | "right": moves to the start of the right part
-	SplitAt   int    // rotates which token boundaries are used as cut points
-	Depth     int    // page-tree depth: 0/1 flat, 2, 3
-	Inherit   string // "leaf" | "parent" | "root": where MediaBox/Resources/Rotate live
-	Revisions int    // 0/1, 2, 3
-	Order     string // "asc" | "desc" (descending object numbers, shuffled file order)
-	Indirect  bool   // Resources, the Font dictionary, MediaBox and multi-stream /Contents arrays are indirect objects
-	EOL       string // "LF" | "CRLF" | "CR"
+	XRef       string // "table" (default) | "stream"
+	ObjStm     string // "none" (default) | "all" | "alt"          (needs XRef=stream)
+	Filter     string // "none" | "Fl" | "AHx" | "A85Fl" | "FlPNG"  (content and ToUnicode streams)
+	Length     string // "direct" | "before" | "after"             (indirect /Length object placed before/after its stream)
+	Split      int    // number of content streams per page: 0/1, 2, 3
+	SplitWS    string // "left" (default): whitespace stays at the end of the left part | "right": moves to the start of the right part
+	SplitAt    int    // rotates which token boundaries are used as cut points
+	Depth      int    // page-tree depth: 0/1 flat, 2, 3
+	Inherit    string // "leaf" | "parent" | "root": where MediaBox/Resources/Rotate live
+	Revisions  int    // 0/1, 2, 3
+	Order      string // "asc" | "desc" (descending object numbers, shuffled file order)
+	Unbalanced bool   // first and last page directly under the root, the others one or two levels deeper
+	Indirect   bool   // Resources, the Font dictionary, MediaBox and multi-stream /Contents arrays are indirect objects
+	EOL        string // "LF" | "CRLF" | "CR"
 }
 
 func (l Layout) String() string {
-	return fmt.Sprintf("xref=%s objstm=%s filter=%s length=%s split=%d/%s/%d depth=%d inherit=%s rev=%d order=%s eol=%s indirect=%v",
+	return fmt.Sprintf("xref=%s objstm=%s filter=%s length=%s split=%d/%s/%d depth=%d inherit=%s rev=%d order=%s eol=%s indirect=%v unbalanced=%v",
 		dflt(l.XRef, "table"), dflt(l.ObjStm, "none"), dflt(l.Filter, "none"), dflt(l.Length, "direct"), max1(l.Split), dflt(l.SplitWS, "left"), l.SplitAt,
-		max1(l.Depth), dflt(l.Inherit, "leaf"), max1(l.Revisions), dflt(l.Order, "asc"), dflt(l.EOL, "LF"), l.Indirect)
+		max1(l.Depth), dflt(l.Inherit, "leaf"), max1(l.Revisions), dflt(l.Order, "asc"), dflt(l.EOL, "LF"), l.Indirect, l.Unbalanced)
 }
 
 func dflt(s, d string) string {
@@ -82,7 +84,7 @@ func max1(n int) int {
 // EncodeText returns the bytes shown for text under the font kind, or false if not encodable.
 func EncodeText(k FontKind, text string) ([]byte, bool) {
 	switch k {
-	case Type1WinAnsi:
+	case Type1WinAnsi, Type1Widths:
 		b, err := charmap.Windows1252.NewEncoder().Bytes([]byte(text))
 		return b, err == nil
 	case TrueTypeMacRoman:
@@ -410,7 +412,7 @@ func Plan(doc Doc, lay Layout) File {
 	fontRes := func(ref func(string) int) string {
 		var s strings.Builder
 		s.WriteString("<< /Font <<")
-		for k := Type1WinAnsi; k <= Type1Standard; k++ {
+		for k := Type1WinAnsi; k <= Type1Widths; k++ {
 			if used[k] {
 				fmt.Fprintf(&s, " %s %d 0 R", fontName(k), ref(fmt.Sprintf("font%d", k)))
 			}
@@ -426,6 +428,12 @@ func Plan(doc Doc, lay Layout) File {
 	if used[TrueTypeMacRoman] {
 		add(pending{key: "font1", packOK: true, body: func(func(string) int) string {
 			return "<< /Type /Font /Subtype /TrueType /BaseFont /Arial /Encoding /MacRomanEncoding /FirstChar 32 /LastChar 33 /Widths [278 278] >>"
+		}})
+	}
+	if used[Type1Widths] {
+		add(pending{key: "font4", packOK: true, body: func(func(string) int) string {
+			w := strings.TrimSpace(strings.Repeat("950 ", 95))
+			return "<< /Type /Font /Subtype /Type1 /BaseFont /Helvetica /Encoding /WinAnsiEncoding /FirstChar 32 /LastChar 126 /Widths [" + w + "] >>"
 		}})
 	}
 	if used[Type1Standard] {
@@ -456,21 +464,30 @@ func Plan(doc Doc, lay Layout) File {
 		}
 		return fmt.Sprintf("[%s %s %s %s]", num(b[0]), num(b[1]), num(b[2]), num(b[3]))
 	}
-	// page-tree shape: leaves grouped under intermediate nodes to reach the requested depth
-	// depth 1: root -> pages; depth 2: root -> mid_i -> pages; depth 3: root -> top -> mid_i -> pages
-	parentOf := make([]string, np)
-	var mids []string
+	// page-tree shape: every leaf has a path root("pages") -> ... -> page.
+	// depth 1: pages -> page; depth 2: pages -> mid_i -> page; depth 3: pages -> top -> mid_i -> page.
+	// Unbalanced: the first and the last page hang directly under the root, the others under mid0
+	// (below top at depth 3), so leaves sit at different depths and a Pages node is followed by a leaf.
+	pathOf := make([][]string, np) // intermediate nodes from the root down to the leaf's parent
 	for i := range doc.Pages {
-		switch depth {
-		case 1:
-			parentOf[i] = "pages"
+		switch {
+		case lay.Unbalanced && np >= 2 && (i == 0 || (i == np-1 && np >= 3)):
+			pathOf[i] = []string{"pages"}
+		case lay.Unbalanced && np >= 2 && depth >= 3:
+			pathOf[i] = []string{"pages", "top", "mid0"}
+		case lay.Unbalanced && np >= 2:
+			pathOf[i] = []string{"pages", "mid0"}
+		case depth == 1:
+			pathOf[i] = []string{"pages"}
+		case depth == 2:
+			pathOf[i] = []string{"pages", fmt.Sprintf("mid%d", i/2)}
 		default:
-			m := fmt.Sprintf("mid%d", i/2)
-			parentOf[i] = m
-			if len(mids) == 0 || mids[len(mids)-1] != m {
-				mids = append(mids, m)
-			}
+			pathOf[i] = []string{"pages", "top", fmt.Sprintf("mid%d", i/2)}
 		}
+	}
+	parentOf := make([]string, np)
+	for i := range pathOf {
+		parentOf[i] = pathOf[i][len(pathOf[i])-1]
 	}
 	if lay.Indirect {
 		add(pending{key: "res", packOK: true, body: func(ref func(string) int) string {
@@ -591,77 +608,96 @@ func Plan(doc Doc, lay Layout) File {
 			}})
 		}
 	}
-	// intermediate nodes
-	kidsOf := func(node string, upto int) []string { // pages visible up to (excluding) index upto
-		var k []string
-		for i := range doc.Pages {
-			if parentOf[i] == node && i < upto {
-				k = append(k, fmt.Sprintf("page%d", i))
+	// intermediate nodes: children in document order, counts, parents derived from the leaf paths
+	childrenOf := func(node string, upto int) []string {
+		var out []string
+		for i := 0; i < upto; i++ {
+			child := fmt.Sprintf("page%d", i)
+			found := false
+			for k, n := range pathOf[i] {
+				if n == node {
+					found = true
+					if k+1 < len(pathOf[i]) {
+						child = pathOf[i][k+1]
+					}
+					break
+				}
+			}
+			if found && (len(out) == 0 || out[len(out)-1] != child) {
+				out = append(out, child)
 			}
 		}
-		return k
+		return out
 	}
-	pagesNode := func(key, parent string, kids func(upto int) []string, count func(upto int) int, withAttrs bool, rev, upto int) pending {
+	countOf := func(node string, upto int) int {
+		c := 0
+		for i := 0; i < upto; i++ {
+			for _, n := range pathOf[i] {
+				if n == node {
+					c++
+				}
+			}
+		}
+		return c
+	}
+	pagesNode := func(key, parent string, withAttrs bool, rev, upto int) pending {
 		return pending{key: key, rev: rev, packOK: true, body: func(ref func(string) int) string {
 			s := "<< /Type /Pages"
 			if parent != "" {
 				s += fmt.Sprintf(" /Parent %d 0 R", ref(parent))
 			}
 			s += " /Kids ["
-			for i, k := range kids(upto) {
+			for i, k := range childrenOf(key, upto) {
 				if i > 0 {
 					s += " "
 				}
 				s += fmt.Sprintf("%d 0 R", ref(k))
 			}
-			s += fmt.Sprintf("] /Count %d", count(upto))
+			s += fmt.Sprintf("] /Count %d", countOf(key, upto))
 			if withAttrs {
 				s += attrs(doc.Pages[0], ref)
 			}
 			return s + " >>"
 		}}
 	}
-	// a node is (re)written in revision 3 when the appended page changes its Kids/Count
-	emitNode := func(key, parent string, kids func(upto int) []string, count func(upto int) int, withAttrs bool) {
-		if appended >= 0 {
-			if len(kids(np)) != len(kids(appended)) || count(np) != count(appended) {
-				if len(kids(appended)) > 0 || key == "pages" || key == "top" {
-					add(pagesNode(key, parent, kids, count, withAttrs, 0, appended))
+	// node list (each once), deepest first, with its parent
+	type nodeInfo struct{ key, parent string }
+	var nodes []nodeInfo
+	seenNode := map[string]bool{}
+	for level := 3; level >= 0; level-- {
+		for i := range pathOf {
+			if level < len(pathOf[i]) {
+				n := pathOf[i][level]
+				if !seenNode[n] {
+					seenNode[n] = true
+					par := ""
+					if level > 0 {
+						par = pathOf[i][level-1]
+					}
+					nodes = append(nodes, nodeInfo{n, par})
 				}
-				p := pagesNode(key, parent, kids, count, withAttrs, 2, np)
-				add(p)
-				return
 			}
 		}
-		add(pagesNode(key, parent, kids, count, withAttrs, 0, np))
 	}
-	midParent := "pages"
-	if depth >= 3 {
-		midParent = "top"
-	}
-	for _, m := range mids {
-		m := m
-		emitNode(m, midParent, func(upto int) []string { return kidsOf(m, upto) }, func(upto int) int { return len(kidsOf(m, upto)) }, inherit == "parent")
-	}
-	visibleMids := func(upto int) []string {
-		var k []string
-		for _, m := range mids {
-			if len(kidsOf(m, upto)) > 0 {
-				k = append(k, m)
+	isLeafParent := func(node string) bool {
+		for i := range parentOf {
+			if parentOf[i] == node {
+				return true
 			}
 		}
-		return k
+		return false
 	}
-	if depth >= 3 {
-		emitNode("top", "pages", visibleMids, func(upto int) int { return upto }, false)
-	}
-	switch depth {
-	case 1:
-		emitNode("pages", "", func(upto int) []string { return kidsOf("pages", upto) }, func(upto int) int { return upto }, inherit != "leaf")
-	case 2:
-		emitNode("pages", "", visibleMids, func(upto int) int { return upto }, inherit == "root")
-	default:
-		emitNode("pages", "", func(int) []string { return []string{"top"} }, func(upto int) int { return upto }, inherit == "root")
+	for _, nd := range nodes {
+		withAttrs := (inherit == "parent" && isLeafParent(nd.key)) || (inherit == "root" && nd.key == "pages")
+		// a node is (re)written in revision 3 when the appended page changes its Kids/Count
+		if appended >= 0 && (len(childrenOf(nd.key, np)) != len(childrenOf(nd.key, appended)) || countOf(nd.key, np) != countOf(nd.key, appended)) {
+			if countOf(nd.key, appended) > 0 || nd.key == "pages" {
+				add(pagesNode(nd.key, nd.parent, withAttrs, 0, appended))
+			}
+			add(pagesNode(nd.key, nd.parent, withAttrs, 2, np))
+			continue
+		}
+		add(pagesNode(nd.key, nd.parent, withAttrs, 0, np))
 	}
 	add(pending{key: "catalog", packOK: true, body: func(ref func(string) int) string {
 		return fmt.Sprintf("<< /Type /Catalog /Pages %d 0 R >>", ref("pages"))
